@@ -253,6 +253,15 @@ func (ev *Env) ident(name string) Val {
 	if sig, ok := ev.fx.E.S.Sigs[name]; ok && len(sig.Args) == 0 {
 		return gval(sig.Ret, name)
 	}
+	if ev.loopH != nil && ev.frame != nil && isPlainIdent(name) {
+		// last resort, in a clause of a `range` loop: a name that denotes nothing at all - no variable, parameter,
+		// view, ghost, package member or constant - after an index loop was rewritten as `for _, x := range s`. The only
+		// thing it can sensibly denote is the iteration count. Harmless if the guess is wrong: loop clauses are proved
+		// (entry and step) under whatever they denote, never assumed.
+		if v, ok := ev.frame.rangeCount(ev.loopH); ok {
+			return v
+		}
+	}
 	specFail("unknown identifier %s", name)
 	return Val{}
 }
